@@ -420,9 +420,9 @@ def model_export_to_file(f, model=None, repo=None):
     Returns:
         Nothing
     """
-    if not model and not repo:
+    if model is None and not repo:
         raise Exception("specify either a model or a repo")
-    if model and repo:
+    if model is not None and repo:
         raise Exception("specify either a model or a repo")
 
     processed_set = set()
